@@ -54,6 +54,9 @@ def _scan(text, o):
     except CaseTimeout:
         o.exclude("slow-scan")
         return None
+    except Exception as e:  # totality is C01's business; here it must not become a harness error
+        o.exclude("scan-raised:" + type(e).__name__ + " (C01's business)")
+        return None
 
 
 # ---- XML references --------------------------------------------------------------------------------------
@@ -186,7 +189,7 @@ def utf16_cases():
             "second": st.one_of(st.none(), st.none(), st.lists(ch, min_size=7, max_size=12).map(bytes)),
             "nul": st.sampled_from([b"\x00\x00", b"\x00\x00\x00\x00"]),
             "inject": st.one_of(st.none(), st.none(), st.none(), st.sampled_from(EXCLUDED)),
-            "embed": st.tuples(st.sampled_from([b"", b"lorem ", b"x = ", b"quux\n", b"\x01\x02"]), st.sampled_from([b"", b" dolor", b"; amet", b"\x01"])),
+            "embed": st.tuples(st.sampled_from([b"", b"lorem ", b"x = ", b"quux\n", b"\x01\x02", b"\x00", b"\x00\x00\x00", b"\x00\x01 lorem ", b"\xff\xfe"]), st.sampled_from([b"", b" dolor", b"; amet", b"\x01", b"\x00\x00\x01"])),
         }
     )
 
